@@ -20,10 +20,12 @@ All5 == {"a", "b", "..", ".", ""}
 Both == {FALSE, TRUE}
 Rel  == {FALSE}
 
-\* the first three plans are the same in both profiles and never sampled: stable representatives of every defect class
+\* the first four plans are the same in both profiles and never sampled: stable representatives of every defect class;
+\* the fourth consists of well-formed trees only (plain nested names, files and directories) - the subject of Faithful
 Det == << P(All5, 3, Both, "all", 1, 1),
           P({"a", ".."}, 2, Rel, "all", 2, 1),
-          P({"a", ".."}, 1, Rel, "all", 3, 1) >>
+          P({"a", ".."}, 1, Rel, "all", 3, 1),
+          P({"a", "b"}, 2, Rel, "plain", 3, 1) >>
 Plans ==
   IF Profile = "quick"
     THEN Det \o << P(All5, 2, Rel, "all", 2, 4),
@@ -32,7 +34,8 @@ Plans ==
                    P(All5, 2, Both, "all", 2, 1),
                    P(All5, 3, Both, "core", 2, 4),
                    P({"a", "b", "..", ""}, 2, Rel, "core", 3, 1),
-                   P({"a", ".."}, 2, Rel, "all", 3, 1) >>
+                   P({"a", ".."}, 2, Rel, "all", 3, 1),
+                   P({"a", "b"}, 3, Rel, "plain", 3, 1) >>
 
 PlanEntries == [i \in 1..Len(Plans) |-> EntriesOf(Plans[i].segs, Plans[i].maxLen, Plans[i].abs, Plans[i].kinds)]
 
